@@ -173,7 +173,7 @@ class AliasForwarder(FunctionContract):
     def setup(self, interp, scenario):
         ctx = interp.ctx
         # instance-level aliases after chain resolution: alias -> variable (no alias is a value)
-        aliases = {'GDP': 'Y', 'out': 'Y', 'inc': 'Y', 'cons': 'C'}
+        aliases = {'GDP': 'Y', 'out': 'Y', 'inc': 'Y', 'cons': 'C', '_gdp': 'Y'}     # (an alias may be spelt like a private name)
         obj = SObj(_Aliased, {'aliases': aliases}, label='aliased')
         name = ctx.fresh('name', STR)
         e = {'name': name, 'aliases': aliases, 'calls': [], 'inputs': {'name': name}}
